@@ -5,7 +5,7 @@ CFG = {
     "level_text": "Proved for every store/ledger/transaction: removeConflict (used for confirmed double spends, abandonment and spenders of detached coinbases) removes the transaction, never touches the mined part of the store and never adds or alters an unconfirmed record; after a successful Rollback(h) no block record >= h is left and records < h are unchanged; an unconfirmed insert removes nothing (conflicting unconfirmed txs coexist); Ledger.apply for `disconnected`/`confirmed` is the C02 sentence (blocks >= h vanish, non-coinbase txs not depending on a detached coinbase become unconfirmed with credits intact, unrelated unconfirmed txs stay).",
     "level_note": "PARTIAL: that rollback/insertMinedTx realise Ledger.apply on the store (C02_disconnect, C02_confirm) and path independence are NOT theorems (the store invariant WF2 IS preserved by rollback and insertMinedTx: see C01, Lemmas/WFRollback.lean); they are checked at run time on every generated history (model = spec = Go, op by op) and on pairs (Go<->Go: oracle key path-independence). Former findings, fixed in /repo 2c7f685 / 7fa9939: spender of a non-credited coinbase output kept on rollback (now C02_rollback_remembers_every_coinbase_output), zero-value credits; reverting either fix yields VIOLATION with replay.",
     "lean_props": ["BtcwVerif.Props.C02"],
-    "engines": ["txstore"],
+    "engines": ["txstore", "walletchain-sync"],
     "trusted_base": COMMON_TB + [
         "hand-written model BtcwVerif/Model/TxStore.lean of wtxmgr/{tx,unconfirmed,query,db}.go (tied by the differential run incl. full bucket dumps)",
         "BtcwVerif/Model/Ledger.lean (specification) is cross-checked against an independent Go implementation of the same sentences (harness/engines/txstore/oracle.go)",
